@@ -215,6 +215,21 @@ class Interp:
                 return self.repo.modules[modname].funcs[fn]
         return None
 
+    def resolve_constant(self, name: str):
+        """A module-level literal constant (dict / tuple / number / string) of the current module."""
+        m = self.cur()
+        if m is None:
+            return _MISSING
+        for st in m.tree.body:
+            if isinstance(st, (ast.Assign, ast.AnnAssign)):
+                tg = st.targets if isinstance(st, ast.Assign) else [st.target]
+                if any(isinstance(t, ast.Name) and t.id == name for t in tg) and st.value is not None:
+                    try:
+                        return const_value(st.value)
+                    except ValueError:
+                        return _MISSING
+        return _MISSING
+
     def resolve_module(self, name: str):
         m = self.cur()
         if m is None:
@@ -569,6 +584,9 @@ class Interp:
             mr = self.resolve_module(e.id)
             if mr is not None:
                 return mr
+            mc = self.resolve_constant(e.id)
+            if mc is not _MISSING:
+                return mc
             nt = self.resolve_record(e.id)
             if nt is not None:
                 return nt
@@ -907,6 +925,8 @@ class Interp:
             return self.expr(f.node.body, env2)
         if isinstance(f, _PyCall):
             return f.fn(*vals, **kw)
+        if isinstance(f, Node) and isinstance(f.f.get("__call__"), _PyCall):
+            return f.f["__call__"].fn(*vals, **kw)
         if isinstance(f, _DictMeth):
             if f.name == "items":
                 return [(k, v) for k, v in f.d.items()]
@@ -971,6 +991,9 @@ class _Lam:
     def __init__(self, node, env):
         self.node = node
         self.env = env
+
+
+_MISSING = object()
 
 
 class _ModRef:
